@@ -547,6 +547,12 @@ package dsl
 //@ func GetProtocolSchemaString
 //@   pure
 //@   reads-model
+// C15 / C04: the text is computed from the protocol it is asked about, every time. The model and each previous version
+// have a protocol of the same qualified name; a text remembered under that name would hand the schema of one version
+// to the readers of another, which then accept foreign streams as their own.
+//@   property C15,C04,C05
+//@   ensures the_text_is_the_marshalled_schema_of_this_protocol: calls(GetProtocolSchema) == 1 && lastArg(GetProtocolSchema, 0) == protocol && calls("encoding/json.Marshal") == 1 && typeof(lastArg("encoding/json.Marshal", 0)) == *ProtocolSchema && lastArg("encoding/json.Marshal", 0).(*ProtocolSchema) == lastResult(GetProtocolSchema)
+//@ observe-args dsl.GetProtocolSchema
 
 //@ func (*GeneralizedType).ToScalar
 //@   pure
